@@ -117,10 +117,9 @@ type config struct {
 	Img  int
 	WC   bool
 	Mode mode.Mode
-	dir  string       // closed pre-populated image (read-write history only)
-	base sw.State     // persistent state right after the mode switch
-	wcb  string       // write-cache accounting right after the mode switch
-	objs map[string][]byte
+	dir     string // closed pre-populated image (read-write history only)
+	logical string // digest of the logical persistent state right after the mode switch
+	objs    map[string][]byte // physically stored objects (address -> bytes)
 }
 
 func (c *config) name() string {
@@ -242,11 +241,13 @@ var ops = []opDef{
 }
 
 type sys struct {
-	c   *config
-	w   *sw.World
-	dir string
-	fp  string
-	msg string
+	c    *config
+	w    *sw.World
+	dir  string
+	base sw.State // byte-level persistent state of THIS instance right after the mode switch
+	wcb  string   // write-cache accounting at that moment
+	fp   string
+	msg  string
 }
 
 func (c *config) newSys() *sys {
@@ -268,6 +269,12 @@ func (c *config) newSys() *sys {
 	if err := w.SetMode(c.Mode); err != nil {
 		return fail(fmt.Errorf("switch to mode: %w", err))
 	}
+	// The baseline is taken per instance: the read-write prelude (open + init + switch) stores the
+	// same logical content in every instance but bbolt's page layout is not reproducible.
+	if s.base, err = sw.SnapStateRaw(s.dir); err != nil {
+		return fail(err)
+	}
+	s.wcb = w.WCCounters()
 	return s
 }
 
@@ -330,7 +337,8 @@ func (s *sys) Key() string {
 		return "snap-error:" + err.Error()
 	}
 	cur, done := s.w.GCEpochs()
-	return fmt.Sprintf("%s|%s|gc=%d/%d|epoch=%d|fp=%s", st.RawHash(), s.w.WCCounters(), cur, done, s.w.Epoch.CurrentEpoch(), s.fp)
+	// persistent part of the key: the config's logical content (constant) + how this instance differs from its baseline
+	return fmt.Sprintf("%s|changed=%v|%s|gc=%d/%d|epoch=%d|fp=%s", s.c.logical, s.base.DiffBytes(st), s.w.WCCounters(), cur, done, s.w.Epoch.CurrentEpoch(), s.fp)
 }
 
 func getClass(o *object.Object, err error, want []byte) string {
@@ -351,9 +359,6 @@ func getClass(o *object.Object, err error, want []byte) string {
 }
 
 func (s *sys) Check() (string, string) {
-	if s.fp != "" {
-		return s.fp, s.msg
-	}
 	c := s.c
 	if m := s.w.Sh.GetMode(); m != c.Mode {
 		return "mode-changed", fmt.Sprintf("%s: shard now reports %s", c.name(), m)
@@ -362,19 +367,25 @@ func (s *sys) Check() (string, string) {
 	if err != nil {
 		return "harness-snapshot", err.Error()
 	}
-	if d := c.base.DiffBytes(st); len(d) > 0 {
+	if d := s.base.DiffBytes(st); len(d) > 0 {
 		return "persistent-state-changed:" + strings.SplitN(d[0], ":", 2)[0], fmt.Sprintf("%s: on-disk state differs from the state at the mode switch: %v", c.name(), d)
 	}
-	if wcs := s.w.WCCounters(); wcs != c.wcb {
-		return "write-cache-accounting-changed", fmt.Sprintf("%s: %q -> %q", c.name(), c.wcb, wcs)
+	if wcs := s.w.WCCounters(); wcs != s.wcb {
+		return "write-cache-accounting-changed", fmt.Sprintf("%s: %q -> %q", c.name(), s.wcb, wcs)
+	}
+	if s.fp != "" { // a request was answered wrongly (the data itself is intact)
+		return s.fp, s.msg
 	}
 	// reads
 	ep := s.w.Epoch.CurrentEpoch()
 	for _, rd := range images[c.Img].Reads {
 		a := sw.Addr(rd.Cnr, rd.Obj)
 		want := rd.RO(ep)
-		if c.Mode == mode.DegradedReadOnly {
-			want = "ok" // no metabase: whatever is physically stored is served
+		if c.Mode == mode.DegradedReadOnly { // no metabase: whatever is physically stored is served
+			want = "ok"
+			if _, stored := c.objs[a.EncodeToString()]; !stored {
+				want = "notfound" // e.g. a cached object dropped from the write-cache by MarkGarbage
+			}
 		}
 		o, err := s.w.Sh.Get(a, false)
 		got := getClass(o, err, c.objs[a.EncodeToString()])
@@ -446,42 +457,18 @@ func main() {
 		if err := c.buildImage(); err != nil {
 			fatal("%v", err)
 		}
-		// baseline = the state right after the mode switch
 		s := c.newSys()
-		var err error
-		if c.base, err = sw.SnapStateRaw(s.dir); err != nil {
+		st, err := sw.SnapState(s.dir)
+		if err != nil {
 			fatal("%v", err)
 		}
-		c.wcb = s.w.WCCounters()
+		c.logical = st.LogicalHash()
 		if c.WC && !s.w.VirtualTicker() {
 			fatal("write-cache flush ticker is not virtual (overlay.spec must rewire flush.go's time import)")
 		}
 		s.Close()
 	}
 
-	if os.Getenv("C14_DEBUG_RAW") != "" {
-		var first []byte
-		for i := 0; i < 40; i++ {
-			s := cfgs[0].newSys()
-			b, _ := os.ReadFile(sw.MetaPath(s.dir))
-			if first == nil {
-				first = b
-			} else if !bytes.Equal(first, b) {
-				var offs []int
-				for k := range b {
-					if k < len(first) && b[k] != first[k] {
-						offs = append(offs, k)
-					}
-				}
-				fmt.Println("run", i, "differs: len", len(first), len(b), "offsets", offs)
-				for _, k := range offs {
-					fmt.Printf(" %d: %02x vs %02x\n", k, first[k], b[k])
-				}
-			}
-			s.Close()
-		}
-		finish()
-	}
 	if r.Replay != "" {
 		var rp struct{ Ops []string }
 		r.LoadReplay(&rp)
